@@ -2,13 +2,18 @@
    Property theorems only: each closed by [exact] of a lemma from Proofs/, followed by Print Assumptions.
 
    Model/C16_tree.v: heap of nodes (name, kind, parent, members, target, target_path, aliases, collection link) + the
-   collection's own dictionary; [step] models set_member / __setitem__ / del_member / __delitem__ / Alias.target= /
-   Alias.resolve_target / the constructors; [run] folds it over a history.
-   [top_down s o]: the operation inserts a FRESH object under its own name (ONew), never an alias directly into the
-   collection, and every object it is applied to (receiver, alias operand) is in the tree at that moment.
-   [all_top_down init ops] says so for every step of the history; [known_gap ops] is its negation. *)
+   collection's own dictionary; [step ab] models set_member / __setitem__ / del_member / __delitem__ / Alias.target= /
+   Alias.resolve_target / the constructors; [run ab] folds it over a history.
+   [ab]: inside set_member, is the new member stored and attached BEFORE the aliases of the replaced member are re-targeted?
+   The translator reads it from the source (Gen/C16_shape.v: attach_before_retarget; the extracted model runs [step] at that
+   value); every theorem below is proved for BOTH values, the two theorems about finding C16-F2 say where they differ.
+   [top_down s o]: the operation inserts a FRESH object under its own name (ONew), or inserts AGAIN an alias that was deleted
+   or replaced and of which nothing is left behind (OSet: no container lists it, no aliases dictionary mentions it); never an
+   alias directly into the collection; every object it is applied to (receiver, alias operand) is in the tree at that moment.
+   [all_top_down ab init ops] says so for every step of the history; [known_gap ab ops] is its negation. *)
 From Coq Require Import List ZArith String Bool Arith.
-From Verif Require Import Lib.Sexp Model.C16_tree Proofs.C16_tree.
+From Verif Require Import Lib.Sexp.
+From Verif Require Import Gen.C16_shape Model.C16_tree Proofs.C16_tree.
 Import ListNotations.
 Open Scope list_scope. Open Scope nat_scope.
 
@@ -17,13 +22,21 @@ Theorem C16_inv_init : Inv init.
 Proof. exact inv_init. Qed.
 Print Assumptions C16_inv_init.
 
-Theorem C16_inv_step : forall s o, Inv s -> top_down s o = true -> Inv (fst (step s o)).
+Theorem C16_inv_step : forall ab s o, Inv s -> top_down s o = true -> Inv (fst (step ab s o)).
 Proof. exact inv_step. Qed.
 Print Assumptions C16_inv_step.
 
-Theorem C16_inv_reachable : forall ops, all_top_down init ops = true -> Inv (run init ops).
+Theorem C16_inv_reachable : forall ab ops, all_top_down ab init ops = true -> Inv (run ab init ops).
 Proof. exact inv_reachable. Qed.
 Print Assumptions C16_inv_reachable.
+
+(* the discipline is not only "fresh objects": an alias that was replaced by a same-named alias to the same target is
+   inserted again elsewhere, and both are listed under their paths (the history of seeded change C16-m4) *)
+Theorem C16_reattach_in_discipline : forall ab,
+  all_top_down ab init sample_reattach = true /\
+  option_map naliases (getn (run ab init sample_reattach) 2) = Some [(["c"; "c"]%string, 4); (["a"; "c"]%string, 3)].
+Proof. intro ab. split; [exact (sample_reattach_disciplined ab) | exact (proj1 (sample_reattach_listed ab))]. Qed.
+Print Assumptions C16_reattach_in_discipline.
 
 (* ---- what the invariant says, clause by clause *)
 
@@ -56,50 +69,69 @@ Print Assumptions C16_dotted_eq_chained.
 
 (* deleted members are gone, in every state and through either API; a rejected deletion changes nothing *)
 Theorem C16_deleted_gone :
-  forall s a r p s', step s (ODel a r p) = (s', None) -> get s' r p = Err EMissing.
+  forall ab s a r p s', step ab s (ODel a r p) = (s', None) -> get s' r p = Err EMissing.
 Proof. exact deleted_gone. Qed.
 Print Assumptions C16_deleted_gone.
 
 Theorem C16_rejected_del_unchanged :
-  forall s a r p s' e, step s (ODel a r p) = (s', Some e) -> s' = s.
+  forall ab s a r p s' e, step ab s (ODel a r p) = (s', Some e) -> s' = s.
 Proof. exact rejected_del_unchanged. Qed.
 Print Assumptions C16_rejected_del_unchanged.
 
 (* every resolved alias in the tree is listed among its target's aliases under its current path:
    FALSE for histories that build bottom-up (finding C16-F1) ... *)
-Theorem C16_backref_listed_refuted : exists ops, known_gap ops = true /\ ~ Backref (run init ops).
+Theorem C16_backref_listed_refuted : forall ab, exists ops, known_gap ab ops = true /\ ~ Backref (run ab init ops).
 Proof. exact backref_listed_refuted. Qed.
 Print Assumptions C16_backref_listed_refuted.
 
+(* ... FALSE when an alias comes back while its old back-reference is still around (finding C16-F3: set_member re-targets
+   the dead entry too, and it overwrites the live alias that now has that path) ... *)
+Theorem C16_backref_clobbered_refuted : forall ab, known_gap ab witness_F3 = true /\ ~ Backref (run ab init witness_F3).
+Proof. exact backref_clobbered_refuted. Qed.
+Print Assumptions C16_backref_clobbered_refuted.
+
 (* ... and true of every history outside that gap *)
-Theorem C16_backref_listed_modulo_known : forall ops, known_gap ops = false -> Backref (run init ops).
+Theorem C16_backref_listed_modulo_known : forall ab ops, known_gap ab ops = false -> Backref (run ab init ops).
 Proof. exact backref_listed_modulo_known. Qed.
 Print Assumptions C16_backref_listed_modulo_known.
 
 (* An alias can never be made to target itself: after ANY history of operations (no discipline assumed: detached
    construction, re-insertion, operations on objects outside the tree are all included) no node's target is the node. *)
 Theorem C16_no_self_target :
-  forall ops a n, getn (run init ops) a = Some n -> ntarget n <> Some a.
+  forall ab ops a n, getn (run ab init ops) a = Some n -> ntarget n <> Some a.
 Proof. exact no_self_target. Qed.
 Print Assumptions C16_no_self_target.
 
 (* alias.target = alias raises CyclicAliasError and leaves the state unchanged, in every state *)
 Theorem C16_self_assignment_rejected :
-  forall s a n, getn s a = Some n -> nkind n = KAli -> step s (OSetTarget a a) = (s, Some ECyclic).
+  forall ab s a n, getn s a = Some n -> nkind n = KAli -> step ab s (OSetTarget a a) = (s, Some ECyclic).
 Proof. exact self_assignment_rejected. Qed.
 Print Assumptions C16_self_assignment_rejected.
 
 (* Aliases that pointed at an object replaced through the tree-building API follow the replacement:
    set_member (Producer) of a fresh object over a non-alias member m; every alias of the tree that targeted m
-   targets the new object (id = old heap size) afterwards.  Needs no discipline beyond Inv of the state before. *)
+   targets the new object (id = old heap size) afterwards, and its target_path is the path that object had when the
+   aliases were re-targeted.  Needs Inv of the state before (and, in the order ab = true, a receiver that is in the tree). *)
 Theorem C16_alias_follows_replacement :
-  forall s r p k t s' c key m,
-  Inv s -> step s (ONew Producer r p k t) = (s', None) ->
+  forall ab s r p k t s' c key m,
+  Inv s -> step ab s (ONew Producer r p k t) = (s', None) ->
   locate s r p = Ok (c, key) -> get_at s c key = Ok m -> kind_of s m <> Some KAli ->
+  (ab = true -> recv_live s r = true) ->
   forall q a n, get s RRoot q = Ok a -> getn s a = Some n -> ntarget n = Some m ->
-  exists n', getn s' a = Some n' /\ ntarget n' = Some (List.length (heap s)).
+  exists n', getn s' a = Some n' /\ ntarget n' = Some (List.length (heap s)) /\
+             POk (ntpath n') = (if ab then path_of s' (List.length (heap s)) else POk [last p ""%string]).
 Proof. exact alias_follows_replacement. Qed.
 Print Assumptions C16_alias_follows_replacement.
+
+(* following includes naming: the followed alias's target_path is the new member's path -- true in the order "attach, then
+   re-target", refuted in the order "re-target, then attach" (finding C16-F2: the alias records the bare name) *)
+Theorem C16_target_path_follows : TPathFollows true.
+Proof. exact target_path_follows. Qed.
+Print Assumptions C16_target_path_follows.
+
+Theorem C16_target_path_follows_refuted : ~ TPathFollows false.
+Proof. exact target_path_follows_refuted. Qed.
+Print Assumptions C16_target_path_follows_refuted.
 
 (* by name, dotted path or tuple of names: _get_parts of the dotted string is the tuple (names are dot-free) *)
 Theorem C16_parts_dotted_eq_tuple :
@@ -113,28 +145,55 @@ Print Assumptions C16_parts_dotted_eq_tuple.
 (* a successful insertion/replacement at absolute path P: P now holds the new object (id = old heap size),
    everything strictly below P is gone, every other path is untouched *)
 Theorem C16_refines_dict_set :
-  forall s a P k t s', Inv s -> top_down s (ONew a RRoot P k t) = true ->
-  step s (ONew a RRoot P k t) = (s', None) ->
+  forall ab s a P k t s', Inv s -> top_down s (ONew a RRoot P k t) = true ->
+  step ab s (ONew a RRoot P k t) = (s', None) ->
   forall q, dict_of s' q = dict_set P (List.length (heap s)) (dict_of s) q.
 Proof. exact refines_dict_new. Qed.
 Print Assumptions C16_refines_dict_set.
 
 (* a successful deletion at P removes exactly P and what is below it *)
 Theorem C16_refines_dict_del :
-  forall s a P s', Inv s -> step s (ODel a RRoot P) = (s', None) ->
+  forall ab s a P s', Inv s -> step ab s (ODel a RRoot P) = (s', None) ->
   forall q, dict_of s' q = dict_del P (dict_of s) q.
 Proof. exact refines_dict_del. Qed.
 Print Assumptions C16_refines_dict_del.
 
-(* rejected insertions and the operations on aliases leave the dictionary unchanged *)
-Theorem C16_refines_dict_rejected :
-  forall s a r P k t s' e, Inv s -> step s (ONew a r P k t) = (s', Some e) ->
+(* the same through ANY object of the tree as receiver: an operation on the object at path pj with the relative path p
+   is the operation on the collection with the absolute path pj ++ p (so the two refinement theorems hold for it) *)
+Theorem C16_receiver_eq_absolute :
+  forall ab s pj j p, Inv s -> get s RRoot pj = Ok j -> p <> [] ->
+  (forall a k t, step ab s (ONew a (RObj j) p k t) = step ab s (ONew a RRoot (pj ++ p) k t)) /\
+  (forall a v, step ab s (OSet a (RObj j) p v) = step ab s (OSet a RRoot (pj ++ p) v)) /\
+  (forall a, step ab s (ODel a (RObj j) p) = step ab s (ODel a RRoot (pj ++ p))).
+Proof. intros ab s pj j p H. exact (step_recv_abs ab s pj j p (proj1 H)). Qed.
+Print Assumptions C16_receiver_eq_absolute.
+
+Theorem C16_refines_dict_set_any_receiver :
+  forall ab s a pj j p k t s', Inv s -> get s RRoot pj = Ok j -> p <> [] ->
+  top_down s (ONew a (RObj j) p k t) = true -> step ab s (ONew a (RObj j) p k t) = (s', None) ->
+  forall q, dict_of s' q = dict_set (pj ++ p) (List.length (heap s)) (dict_of s) q.
+Proof. exact refines_dict_new_recv. Qed.
+Print Assumptions C16_refines_dict_set_any_receiver.
+
+Theorem C16_refines_dict_del_any_receiver :
+  forall ab s a pj j p s', Inv s -> get s RRoot pj = Ok j -> p <> [] ->
+  step ab s (ODel a (RObj j) p) = (s', None) ->
+  forall q, dict_of s' q = dict_del (pj ++ p) (dict_of s) q.
+Proof. exact refines_dict_del_recv. Qed.
+Print Assumptions C16_refines_dict_del_any_receiver.
+
+(* rejected insertions (any receiver) leave the dictionary unchanged -- PARTIAL: proved for the order "re-target, then
+   store" (ab = false, the order of the code when this was written); in the other order an exception escaping from the
+   re-targeting loop comes after the member was stored, and showing that no such exception can arise under Inv is missing *)
+Theorem C16_refines_dict_rejected_partial :
+  forall ab s a r P k t s' e, ab = false -> Inv s -> step ab s (ONew a r P k t) = (s', Some e) ->
   forall q, dict_of s' q = dict_of s q.
 Proof. exact refines_dict_new_rejected. Qed.
-Print Assumptions C16_refines_dict_rejected.
+Print Assumptions C16_refines_dict_rejected_partial.
 
+(* the operations on aliases leave the dictionary unchanged *)
 Theorem C16_refines_dict_alias_ops :
-  forall s o, (exists a, o = OResolve a) \/ (exists a v, o = OSetTarget a v) ->
-  forall q, dict_of (fst (step s o)) q = dict_of s q.
+  forall ab s o, (exists a, o = OResolve a) \/ (exists a v, o = OSetTarget a v) ->
+  forall q, dict_of (fst (step ab s o)) q = dict_of s q.
 Proof. exact refines_dict_alias_ops. Qed.
 Print Assumptions C16_refines_dict_alias_ops.
